@@ -36,14 +36,17 @@ class LifecycleMon(Monitor):
     def on_transition(self, h, ev, rs, before):
         seq, op, frm, to, ok, msg = ev
         self.n_events += 1
+        known0 = self.shadow.get(id(op), "pending")
+        if known0 != frm and frm is not None:
+            # the state the request started from is not the state the log left the operator in
+            h.problem(("C02",), "state-bypass", f"operator of {op.pipeline.pipeline_id} was {frm} at a transition request ({'accepted' if ok else 'refused'} -> {to}) "
+                                                f"but the transition log says {known0}: its state changed without a request")
+            self.shadow[id(op)] = frm
         if ok:
             if (frm, to) not in ALLOWED:
                 h.problem(("C02",), "illegal-transition", f"accepted transition {frm}->{to} of an operator of {op.pipeline.pipeline_id}")
             if frm == "completed":
                 h.problem(("C02",), "completed-changed", f"a completed operator moved to {to}")
-            known = self.shadow.get(id(op), "pending")
-            if known != frm:
-                h.problem(("C02",), "state-bypass", f"operator was {frm} at a transition request but the log says {known} (state written without the transition API)")
             self.shadow[id(op)] = to
             self.touched.add(op)
             if to == "assigned":
@@ -163,7 +166,7 @@ class ConservationMon(Monitor):
 # =========================================================================== C04 / C11 (end to end)
 
 
-MAX_MODEL_TICKS = 400000
+MAX_MODEL_TICKS = 20000
 
 
 def model_ticks_for(ops, cpu, tps):
